@@ -10,8 +10,8 @@ def exec_once(self, *args):                          start --rdFlag b--> (b: don
         self._exec_once_impl(False, *args)
 def _get_exec_once_mutex(self):
     with util.mini_gil:          # nullcontext on GIL builds, RLock on free-threaded builds
-        if self._exec_once_mutex is not None:        chk --rdMutex (some m)--> have m
-            return self._exec_once_mutex             chk --rdMutex none--> sawNone
+        if self._exec_once_mutex is not None:        chk --rdMutex (some _)--> sawSome ; chk --rdMutex none--> sawNone
+            return self._exec_once_mutex             sawSome --rdMutexRet m--> have m   (second read)
         mutex = threading.Lock()                     sawNone --mk m--> made m      (m fresh)
         self._exec_once_mutex = mutex                made m --asg--> have m
         return mutex
@@ -28,12 +28,12 @@ def _exec_once_impl(self, retry, *args):
 namespace SaVerif.ExecOnce
 
 inductive Pc
-  | start | chk | sawNone | made (m : Nat) | have (m : Nat) | locked (m : Nat)
+  | start | chk | sawSome | sawNone | made (m : Nat) | have (m : Nat) | locked (m : Nat)
   | running (m : Nat) | ran (m : Nat) | unlock (m : Nat) | done
 deriving Repr, DecidableEq
 
 inductive Label
-  | rdFlag (b : Bool) | rdMutex (m : Option Nat) | mk (m : Nat) | asg | init (m : Nat)
+  | rdFlag (b : Bool) | rdMutex (m : Option Nat) | rdMutexRet (m : Nat) | mk (m : Nat) | asg | init (m : Nat)
   | acq | rdFlag2 (b : Bool) | ret | setFlag | rel
 deriving Repr, DecidableEq
 
@@ -57,9 +57,12 @@ def trans (atomicInit : Bool) (s : Shared) : Pc → Label → Option (Pc × Shar
   | .chk, .rdMutex m =>
     if m = s.mutex then
       match m with
-      | some x => some (.have x, s)
+      | some _ => some (.sawSome, s)
       | none => if atomicInit then none else some (.sawNone, s)
     else none
+  -- `return self._exec_once_mutex`: a second read (it may see a newer mutex when the
+  -- creation is not atomic)
+  | .sawSome, .rdMutexRet m => if s.mutex = some m then some (.have m, s) else none
   | .chk, .init m =>
     if atomicInit ∧ s.mutex = none ∧ m = s.next then
       some (.have m, { s with mutex := some m, next := s.next + 1 })
